@@ -68,7 +68,7 @@ import json, sys
 import numpy as np
 from sasmodels.core import load_model
 from sasmodels.direct_model import call_kernel
-m = load_model(sys.argv[1], dtype="double", platform="dll")
+m = load_model(sys.argv[1], dtype=(sys.argv[2] if len(sys.argv) > 2 else "double"), platform="dll")
 k = m.make_kernel([np.array([0.1, 0.2, 0.4])])
 print(json.dumps([float(x) for x in call_kernel(k, dict(a=3.0, b=0.25, scale=1.0, background=0.0))]))
 '''
@@ -202,7 +202,15 @@ class World:
                 raise RuntimeError("fork server did not start: %s" % (self.server.stderr.read()[-500:] if self.server.poll() is not None else "timeout"))
             time.sleep(0.01)
 
-    def launch(self, tag, scripted=True):
+    def launch(self, tag, scripted=True, dtype="double"):
+        if dtype != "double":
+            p = Proc(tag)
+            p.dtype = dtype
+            p.popen = subprocess.Popen([common.PY, self.worker, self.model_path, dtype], env=self.env(tag, scripted),
+                                       stdout=subprocess.PIPE, stderr=subprocess.PIPE, text=True,
+                                       start_new_session=True, cwd=self.dir)
+            self.procs[tag] = p
+            return p
         if self.fork and scripted:
             if self.server is None:
                 self.start_server()
@@ -247,7 +255,8 @@ class World:
         if rc == 0:
             try:
                 vals = json.loads(out.strip().splitlines()[-1])
-                ok = all(abs(a - b) < 1e-12 for a, b in zip(vals, EXPECT))
+                tol = 1e-12 if getattr(p, "dtype", "double") == "double" else 1e-5
+                ok = len(vals) == len(EXPECT) and all(abs(a - b) < tol for a, b in zip(vals, EXPECT))
             except Exception:  # noqa
                 ok = False
         p.stage = "done"
@@ -390,6 +399,56 @@ def run_schedule(root, idx, sched, nproc, kill_kind="sigkill", fork=False):
         shutil.rmtree(w.dir, ignore_errors=True)
 
 
+def run_mixed(root, idx, order):
+    """Two processes load the SAME uncached model at DIFFERENT precisions ('d' = double, 's' = single), their build
+    steps interleaved as in [order] (a list of 'd'/'s': each occurrence lets that builder take its next step).
+    Every process must obtain correct values, and fresh loads at both precisions must succeed afterwards."""
+    w = World(root, idx)
+    dt = {"d": "double", "s": "single"}
+    try:
+        for who in order:
+            tag = "m" + who
+            p = w.procs.get(tag)
+            if p is None:
+                p = w.launch(tag, dtype=dt[who]) if who == "s" else w.launch(tag)
+                w.wait_stage_or_exit(p, 0)
+            elif p.stage in (0, 1):
+                k = p.stage
+                w.release(p, k)
+                w.wait_stage_or_exit(p, k + 1)
+            elif p.stage == 2:
+                w.release(p, 2)
+                t0 = time.time()
+                while p.popen.poll() is None and time.time() - t0 < 60:
+                    time.sleep(0.003)
+                w.collect(p)
+        # let everybody finish
+        for p in list(w.procs.values()):
+            while p.stage in (0, 1, 2):
+                k = p.stage
+                w.release(p, k)
+                if k < 2:
+                    w.wait_stage_or_exit(p, k + 1)
+                else:
+                    t0 = time.time()
+                    while p.popen.poll() is None and time.time() - t0 < 60:
+                        time.sleep(0.003)
+                    w.collect(p)
+        results = {t: p.result for t, p in w.procs.items()}
+        after = {}
+        for who in "ds":
+            r = w.launch("after" + who, scripted=False, dtype=dt[who]) if who == "s" else w.launch("after" + who, scripted=False)
+            t0 = time.time()
+            while r.popen.poll() is None and time.time() - t0 < 120:
+                time.sleep(0.005)
+            w.collect(r)
+            after[who] = r.result
+        return dict(order="".join(order), results=results, after=after, listing=sorted(os.listdir(w.cache)))
+    finally:
+        w.kill_all()
+        shutil.rmtree(w.dir, ignore_errors=True)
+
+
 def all_schedules(nproc, steps=4):
     base = []
     for p in range(1, nproc + 1):
@@ -456,9 +515,21 @@ def main(run):
         futs = [ex.submit(run_schedule, root, i, s, n, kinds[i], i >= nfork0) for i, (s, n) in enumerate(scheds)]
         for f in futs:
             obs.append(f.result())
-    stats = dict(schedules=len(obs), processes=sum(len(set(o["sched"])) for o in obs), kills=sum(len(o["killed"]) for o in obs),
-                 kill_stages={}, lookup_hits=0)
     distinct = set()
+    # concurrent first use at two precisions of one model
+    mixed_orders = ["dsdsdsds", "ddsdsss", "sddsdds"] + (["sdsdsd", "dssddsds", "ssdddsd", "dsssddd"] if thorough else [])
+    with ThreadPoolExecutor(max_workers=4) as ex:
+        mixed = list(ex.map(lambda a: run_mixed(root, 1000 + a[0], list(a[1])), enumerate(mixed_orders)))
+    for mo in mixed:
+        bad = {t: r for t, r in mo["results"].items() if not (r and r["ok"])}
+        badafter = {t: r for t, r in mo["after"].items() if not (r and r["ok"])}
+        if bad or badafter:
+            run.add(Finding("C18:mixed-precision", "double and single precision builds of one model interleaved as %s: %s did not obtain correct values%s" % (
+                mo["order"], sorted(bad) or "nobody", ("; later loads failing: %s" % sorted(badafter)) if badafter else ""), dict(mo)))
+        else:
+            distinct.add(("mixed", mo["order"]))
+    stats = dict(schedules=len(obs), processes=sum(len(set(o["sched"])) for o in obs), kills=sum(len(o["killed"]) for o in obs),
+                 kill_stages={}, lookup_hits=0, mixed_precision_schedules=len(mixed))
     for o in obs:
         distinct.add((tuple(o["sched"]), o["kill_kind"], o["forked_workers"]))
         stats["forked_worker_schedules"] = stats.get("forked_worker_schedules", 0) + int(o["forked_workers"])
